@@ -940,26 +940,37 @@ def fee_integer(ctx):
         mod = ctx.repo.mod(modname)
         for name, fn in sorted(mod.functions.items()):
             q = '%s:%s' % (modname, name)
-            sites = []
-            for a in walk_no_nested(fn):
+            if not any(isinstance(x, (ast.Name, ast.Attribute, ast.keyword)) and 'fee' in (getattr(x, 'id', None) or getattr(x, 'attr', None) or getattr(x, 'arg', None) or '') for x in ast.walk(fn)):
+                continue
+            g = build_cfg(fn)
+            rd = ReachingDefs(fn, g)
+            sinks = []          # (expression that becomes a fee, node id, statement, description)
+            for node in g.nodes:
+                a = node.ast
+                if a is None or node.kind not in ('stmt', 'return'):
+                    continue
                 if isinstance(a, ast.Assign):
                     for t in a.targets:
-                        tn = t.id if isinstance(t, ast.Name) else (t.attr if isinstance(t, ast.Attribute) else None)
-                        if tn in _FEE_TARGETS:
-                            sites.append((a.value, a, '%s = ' % norm(t)))
+                        if isinstance(t, ast.Attribute) and t.attr in _FEE_TARGETS:
+                            sinks.append((a.value, node.id, a, '%s = ' % norm(t)))
                 elif isinstance(a, ast.Return) and a.value is not None and 'fee' in name.split('.')[-1].lower():
-                    if isinstance(a.value, ast.Name):
-                        for d in walk_no_nested(fn):
-                            if isinstance(d, ast.Assign) and any(isinstance(t, ast.Name) and t.id == a.value.id for t in d.targets):
-                                sites.append((d.value, d, 'return of %s = ' % a.value.id))
-                    else:
-                        sites.append((a.value, a, 'return '))
-            for e, node, what in sites:
-                if not _floaty(e):
-                    continue
-                n += 1
-                ok = _int_top(e)
-                ctx.saw('%s: %s%s -> %s' % (q, what, norm(e)[:60], 'int' if ok else 'FLOAT'))
-                ctx.require(ok, q, '`%s%s` is computed with float arithmetic and not converted to an integer (round(x, n) returns a float)' % (what, norm(e)[:70]), node,
-                            'calculate_fee() returns 188.0: Wallet.send(fee=None) hands it to transaction_create(fee=fee_exact), where a non-int fee skips the integer path and becomes transaction.fee')
+                    sinks.append((a.value, node.id, a, 'return '))
+                for c in ast.walk(a):
+                    if isinstance(c, ast.Call):
+                        for k in c.keywords:
+                            if k.arg == 'fee' and isinstance(k.value, ast.Name):
+                                sinks.append((k.value, node.id, a, '%s(fee=' % norm(c.func)))
+            for e, nid, stmt, what in sinks:
+                exprs = [(e, stmt)]
+                if isinstance(e, ast.Name):
+                    # a local: every definition that reaches the sink (an int(...) wrapped around it later is a new definition)
+                    exprs = [(d.value, d.ast) for d in rd.reaching(nid, e.id) if d.kind == 'assign' and d.value is not None]
+                for v, at in exprs:
+                    if not _floaty(v):
+                        continue
+                    n += 1
+                    ok = _int_top(v)
+                    ctx.saw('%s: %s%s -> %s' % (q, what, norm(v)[:60], 'int' if ok else 'FLOAT'))
+                    ctx.require(ok, q, '`%s%s` is computed with float arithmetic and not converted to an integer (round(x, n) returns a float)' % (what, norm(v)[:70]), at if hasattr(at, 'lineno') else stmt,
+                                'calculate_fee() returns 188.0: Wallet.send(fee=None) hands it to transaction_create(fee=fee_exact), where a non-int fee skips the integer path and becomes transaction.fee')
     ctx.floor(n, 12, 'fees computed with float arithmetic')
